@@ -29,7 +29,7 @@ type EdgeInfo struct {
 	Cond  ssa.Value // condition after phi resolution for the path taken
 	// RawCond is the condition as written (after same-block phi resolution only)
 	RawCond ssa.Value
-	Facts []string
+	Facts   []string
 }
 
 // InstrPred selects instructions.
